@@ -33,6 +33,8 @@ def run(ctx, which):
         if name.startswith("cut_"):
             c.replay = F.replay_cut(name[4:])
             c.search = F.search_cut(name[4:])
+        if name == "offset":
+            c.search = F.search_offset
         ex, obs = add_to_ctx(ctx, c, {})
         n += len(obs)
     if any(w.startswith("ravel") for w in which):
